@@ -4,7 +4,7 @@
    Constant, no other Extract Inductive. *)
 Require Extraction.
 Require Import ExtrOcamlBasic.
-From FV Require Import Base.Serial Session.Window Link.SenderCredit Base.Bytes Codec.Value Codec.Enc Codec.Dec Codec.Spec Frame.Transfer Lib.LengthDelimited Session.Disposition Lib.Slab Session.Ids.
+From FV Require Import Base.Serial Session.Window Link.SenderCredit Base.Bytes Codec.Value Codec.Enc Codec.Dec Codec.Spec Frame.Transfer Lib.LengthDelimited Session.Disposition Lib.Slab Session.Ids Conn.Lifecycle.
 Extraction Language OCaml.
 Separate Extraction
   Window.run Window.step Window.begun_for_oracle
@@ -12,4 +12,5 @@ Separate Extraction
   Enc.enc_bytes Dec.from_slice Value.wf Spec.spec_valid
   Transfer.wire_transfer Transfer.wire_other LengthDelimited.ld_feed_all
   Disposition.dstep
-  Ids.lstep Ids.ls_init Ids.cstep Ids.cn_init.
+  Ids.lstep Ids.ls_init Ids.cstep Ids.cn_init
+  Lifecycle.step.
